@@ -110,7 +110,8 @@ def layering_rule(repo: Repo, rep, rule: str = "R17.2") -> None:
         return None
 
     d_upd = [c for c in upd if c.args and any(isinstance(x, ast.Attribute) and x.attr == "_default_headers" for x in ast.walk(c.args[0]))]
-    r_upd = [c for c in upd if c.args and any(const_str(x) == "headers" for x in ast.walk(c.args[0]))]
+    _PL = Locals(prep.node)
+    r_upd = [c for c in upd if c.args and any(const_str(x) == "headers" for x in ast.walk(_PL.inline(c.args[0])))]
     a_calls = [c for c in calls_in(prep.node) if isinstance(c.func, ast.Attribute) and c.func.attr == "authenticate_request"]
     rep.require(bool(d_upd) and bool(r_upd) and bool(a_calls),
                 f"R17.2: layering anchors missing (defaults-update={len(d_upd)}, request-update={len(r_upd)}, auth-call={len(a_calls)})")
@@ -128,14 +129,19 @@ def layering_rule(repo: Repo, rep, rule: str = "R17.2") -> None:
         # the dict handed to the plugin derives from the working dict
         arg = a_calls[0].args[0] if a_calls[0].args else None
         src_ok = False
+        cand_dicts = []
+        if isinstance(arg, ast.Dict):
+            cand_dicts.append(arg)  # the dict display passed directly
         if isinstance(arg, ast.Name):
             for n in own_nodes(prep.node):
                 if isinstance(n, (ast.Assign, ast.AnnAssign)):
                     t = n.targets[0] if isinstance(n, ast.Assign) else n.target
                     if isinstance(t, ast.Name) and t.id == arg.id and n.value is not None and isinstance(n.value, ast.Dict):
-                        for k, v in zip(n.value.keys, n.value.values):
-                            if const_str(k) == "headers" and any(isinstance(x, ast.Name) and x.id == wv for x in ast.walk(v)):
-                                src_ok = True
+                        cand_dicts.append(n.value)
+        for dct in cand_dicts:
+            for k, v in zip(dct.keys, dct.values):
+                if k is not None and const_str(k) == "headers" and any(isinstance(x, ast.Name) and x.id == wv for x in ast.walk(v)):
+                    src_ok = True
         if src_ok:
             rep.ok(rule, sub0 + " auth sees layered headers", f"the plugin receives {{'headers': {wv}.copy()}}", prep.loc(a_calls[0]))
         else:
@@ -159,8 +165,14 @@ def run(repo: Repo, rep: Report, tier: str) -> None:
     tcls = tmod.classes.get("HttpxTransport")
     if tcls is None:
         raise AnalysisError("anchor vanished: HttpxTransport")
+    from sa.flatten import flatten as _flatten
+
     prep = tcls.methods.get("_prepare_headers")
     req = tcls.methods.get("request")
+    if prep is not None:
+        prep = _flatten(prep)  # forwarding may live in a private helper of the transport
+    if req is not None:
+        req = _flatten(req)
     if req is None:
         raise AnalysisError("anchor vanished: HttpxTransport.request")
 
@@ -169,7 +181,7 @@ def run(repo: Repo, rep: Report, tier: str) -> None:
     rep.count("R17.1:keys_written_by_plugins", {k: sorted({c for c, _, _ in v}) for k, v in W.items()})
     rep.require("headers" in W, "R17.1: no bundled plugin writes request_args['headers'] (anchor vanished)")
     # functions of the transport that call authenticate_request
-    auth_fns = [m for m in tcls.methods.values() if any(
+    auth_fns = [_flatten(m) for m in tcls.methods.values() if any(
         isinstance(c.func, ast.Attribute) and c.func.attr == "authenticate_request" for c in calls_in(m.node))]
     rep.require(bool(auth_fns), "R17.1: HttpxTransport never calls authenticate_request")
     R: Set[str] = set()
@@ -264,6 +276,13 @@ def run(repo: Repo, rep: Report, tier: str) -> None:
                 n7 += 1
                 typed = [g for g, pol in guards(cfg7, nd.id, dom7) if g.kind == "test" and pol is not None and any(
                     isinstance(x, ast.Call) and dotted(x.func) == "isinstance" and x.args and isinstance(x.args[0], ast.Name) and x.args[0].id == var for x in ast.walk(g.ast))]
+                # ... or by the test of an enclosing conditional expression
+                anc = parent(c)
+                while anc is not None and not isinstance(anc, ast.stmt):
+                    if isinstance(anc, ast.IfExp) and any(isinstance(x, ast.Call) and dotted(x.func) == "isinstance" and x.args and isinstance(x.args[0], ast.Name)
+                                                          and x.args[0].id == var for x in ast.walk(anc.test)):
+                        typed.append(type("G", (), {"ast": anc.test})())
+                    anc = parent(anc)
                 sub = f"{tmod7.relpath}:HttpxTransport._prepare_headers dict() of the caller's `{var}`"
                 if typed:
                     rep.ok("R17.7", sub, f"converted only where `{norm(typed[0].ast)[:50]}` has settled its type (pair sequences keep their repeated names)", prep7.loc(c))
@@ -373,7 +392,9 @@ def run(repo: Repo, rep: Report, tier: str) -> None:
         body_ok = len(lp.body) == 1 and isinstance(lp.body[0], ast.Assign) and isinstance(lp.body[0].targets[0], ast.Name)
         sv = lp.body[0].targets[0].id if body_ok else None  # the threaded state: the parameter itself or a local initialised with it
         if body_ok and sv != p:
-            inits = [n for n in own_nodes(m.node) if isinstance(n, ast.Assign) and isinstance(n.targets[0], ast.Name) and n.targets[0].id == sv and not _inside(n, lp)]
+            inits = [n for n in own_nodes(m.node) if isinstance(n, (ast.Assign, ast.AnnAssign)) and n.value is not None
+                     and isinstance(n.targets[0] if isinstance(n, ast.Assign) else n.target, ast.Name)
+                     and (n.targets[0] if isinstance(n, ast.Assign) else n.target).id == sv and not _inside(n, lp)]
             body_ok = len(inits) == 1 and isinstance(inits[0].value, ast.Name) and inits[0].value.id == p and inits[0].lineno < lp.lineno
         call = None
         if body_ok:
@@ -439,8 +460,15 @@ def _store_on_all_paths(fn: Function, k: str, tainted: Set[str], params: Set[str
         return False
     t = min(tests, key=lambda n: n.lineno)
     targets = {cfg.exit} | {n.id for n in cfg.nodes if n.kind == "iter"}
+    # the branch on which the value is present: the true branch, or the false branch of a negated test (`if not (...): continue`)
+    present = "true"
+    te = t.ast
+    while isinstance(te, ast.UnaryOp) and isinstance(te.op, ast.Not):
+        te, present = te.operand, ("false" if present == "true" else "true")
+    if isinstance(te, ast.BoolOp) and isinstance(te.op, ast.Or) and all(isinstance(v, ast.UnaryOp) and isinstance(v.op, ast.Not) for v in te.values):
+        present = "false" if present == "true" else "true"  # `not A or not B` = not (A and B)
     for m, lab in cfg.succ[t.id]:
-        if lab != "true" or m in stores:
+        if lab != present or m in stores:
             continue
         if cfg.must_pass(m, stores, targets) is not None:
             return False
@@ -487,7 +515,7 @@ def _plugin_rules(cls: Class, m: Function, rep: Report) -> None:
                         return True
                     if isinstance(e, ast.Call) and isinstance(e.func, ast.Attribute) and e.func.attr == "copy" and not e.args and existing(e.func.value):
                         return True
-                    if isinstance(e, ast.Dict) and e.keys and e.keys[0] is None and existing(e.values[0]):
+                    if isinstance(e, ast.Dict) and e.keys and e.keys[0] is None and (existing(e.values[0]) or from_existing(e.values[0])):
                         return True
                     if isinstance(e, ast.BinOp) and isinstance(e.op, ast.BitOr) and existing(e.left):
                         return True
@@ -515,6 +543,22 @@ def _apikey_rules(cls: Class, rep: Report) -> None:
     cfg = CFG(m.node)
     found: Dict[str, str] = {}
     AL = Locals(m.node)
+    # a `match self.location:` statement is the same switch: rewritten as the equivalent if/elif chain
+    for mi, st in enumerate(list(m.node.body)):  # type: ignore[attr-defined]
+        if isinstance(st, ast.Match) and norm(AL.inline(st.subject)) == "self.location":
+            chain_head = None
+            tail: list = []
+            for cs in reversed(st.cases):
+                pat_ = cs.pattern
+                if isinstance(pat_, ast.MatchValue) and const_str(pat_.value) is not None and cs.guard is None:
+                    node = ast.If(test=ast.Compare(left=st.subject, ops=[ast.Eq()], comparators=[pat_.value]), body=cs.body, orelse=tail)
+                    ast.copy_location(node, cs.body[0])
+                    tail = [node]
+                    chain_head = node
+                elif isinstance(pat_, ast.MatchAs) and pat_.pattern is None and cs.guard is None:
+                    tail = list(cs.body)
+            if chain_head is not None:
+                m.node.body[mi] = tail[0] if tail else chain_head  # type: ignore[attr-defined]
     top = [s for s in m.node.body if isinstance(s, ast.If)]  # type: ignore[attr-defined]
     chain = top[0] if top else None
     last_else: List[ast.stmt] = []
@@ -536,6 +580,8 @@ def _apikey_rules(cls: Class, rep: Report) -> None:
                                 keys.append(const_str(tg.slice))
                             if isinstance(tg, ast.Subscript) and norm(tg.slice) == "self.name" and norm(n.value) == "self.key":
                                 name_ok = key_ok = True
+                    if isinstance(n, ast.Dict) and any(k is not None and norm(k) == "self.name" and norm(v) == "self.key" for k, v in zip(n.keys, n.values)):
+                        name_ok = key_ok = True  # {**existing, self.name: self.key}
             found[loc_val] = keys[0] if keys else "?"
             if keys == [want.get(loc_val)] and name_ok and key_ok:
                 rep.ok("R17.5", sub + f" location={loc_val!r}", f"writes {{self.name: self.key}} into request_args[{keys[0]!r}]", m.loc(chain))
